@@ -58,6 +58,13 @@ func (ni *Native) Update(input UpdateInput) error {
 	return nil
 }
 
+// HasMatcher tells whether a matcher is registered for the table, expression type and expression
+func (ni *Native) HasMatcher(tablename string, t ExpressionType, expr string) bool {
+	_, err := ni.getMatcher(tablename, expr, t)
+
+	return err == nil
+}
+
 func (ni *Native) getMatcher(tablename, expression string, kind ExpressionType) (MatcherFunc, error) {
 	var (
 		matcher MatcherFunc
